@@ -2,6 +2,7 @@ package c34
 
 import (
 	"fmt"
+	"math/big"
 	"strings"
 	"testing"
 	"unicode/utf8"
@@ -15,7 +16,8 @@ import (
 const (
 	kfInsertBytes   = "C34-insert-byte-positions"   // INSERT() slices bytes, not characters
 	kfPadBytes      = "C34-pad-byte-lengths"        // LPAD/RPAD measure and cut bytes
-	kfLocateBytesCI = "C34-locate-bytes-ignorecase" // LOCATE() lower-cases both strings and returns byte positions
+	kfLocateBytes   = "C34-locate-byte-positions"   // LOCATE() returns byte positions
+	kfLocateCase    = "C34-locate-ignores-case"     // LOCATE() lower-cases both strings under the case-sensitive default collation; INSTR() does not
 	kfRepeatNeg     = "C34-repeat-negative-error"   // REPEAT(s, n<0) fails instead of returning ''
 	kfLocateNullPos = "C34-locate-null-position"    // LOCATE(t,s,NULL) is evaluated as LOCATE(t,s,1)
 )
@@ -97,10 +99,6 @@ func TestC34(t *testing.T) {
 		if !insertOK {
 			st.Excluded(kfInsertBytes)
 		}
-		locateOK := !(excluding(kfLocateBytesCI) && (!isASCII(s) || strings.ToLower(s) != s || strings.ToLower(tt) != tt))
-		if !locateOK {
-			st.Excluded(kfLocateBytesCI)
-		}
 
 		as := &argSet{columns: rapid.IntRange(0, 2).Draw(rt, "columns") == 0}
 		as.add("s", sqlQuote(s), "VARCHAR(64)")
@@ -139,37 +137,79 @@ func TestC34(t *testing.T) {
 		// LOCATE / INSTR / POSITION
 		loc := refLocate(tt, s, 1)
 		add("INSTR(s,t) = first occurrence", f("INSTR(%s,%s)", S, T), []string{"s", "t"}, wantInt(int64(loc)))
+		foldMatters := strings.ToLower(s) != s || strings.ToLower(tt) != tt
+		locateOK := true
+		if excluding(kfLocateBytes) && !isASCII(s) {
+			// region of the listed finding: a multi-byte character in the searched string
+			st.Excluded(kfLocateBytes)
+			locateOK = false
+		}
+		if excluding(kfLocateCase) && foldMatters {
+			// region of the listed finding: an upper-case letter in either string
+			st.Excluded(kfLocateCase)
+			locateOK = false
+		}
 		if locateOK {
+			// what the engine computes: lower-cases both strings; foldByte is the byte position
+			// (kfLocateBytes), foldChar the character position of that match (kfLocateCase)
+			foldPos := func(from int) (foldByte, foldChar int64) {
+				if from < 1 {
+					return 0, 0
+				}
+				if from <= len(s) || (len(s) == 0 && from == 1) {
+					if i := strings.Index(strings.ToLower(s[from-1:]), strings.ToLower(tt)); i >= 0 {
+						foldByte = int64(i + from)
+					}
+				}
+				sr := []rune(s)
+				if from <= len(sr) || (len(sr) == 0 && from == 1) {
+					tail := strings.ToLower(string(sr[from-1:]))
+					if i := strings.Index(tail, strings.ToLower(tt)); i >= 0 {
+						foldChar = int64(runeLen(tail[:i]) + from)
+					}
+				}
+				return
+			}
 			knownLoc := func(from int) func(any, error) string {
 				return func(v any, err error) string {
-					// signature: the value is the byte position of lower(t) in lower(s) searched from
-					// byte `from` (what strings.Index(strings.ToLower(s[from-1:]), strings.ToLower(t)) gives)
-					if err != nil || from < 1 {
+					r, ok := num(v)
+					if err != nil || !ok || !r.IsInt() {
 						return ""
 					}
-					want := int64(0)
-					if from <= len(s) || (len(s) == 0 && from == 1) {
-						if i := strings.Index(strings.ToLower(s[from-1:]), strings.ToLower(tt)); i >= 0 {
-							want = int64(i + from)
-						}
-					}
-					if r, ok := num(v); ok && r.IsInt() && r.Num().Int64() == want {
-						return kfLocateBytesCI
+					got := r.Num().Int64()
+					foldByte, foldChar := foldPos(from)
+					switch {
+					case !isASCII(s) && foldByte != foldChar && got == foldByte:
+						return kfLocateBytes // signature: the byte position of the (case-folded) match
+					case foldMatters && got == foldChar:
+						return kfLocateCase // signature: the character position of the case-folded match
 					}
 					return ""
 				}
 			}
 			add("LOCATE(t,s) = first occurrence", f("LOCATE(%s,%s)", T, S), []string{"s", "t"}, wantInt(int64(loc))).known = knownLoc(1)
+			add("LOCATE(t,s) = INSTR(s,t)", f("LOCATE(%s,%s) - INSTR(%s,%s)", T, S, S, T), []string{"s", "t"}, wantInt(0)).known = func(v any, err error) string {
+				r, ok := num(v)
+				if err != nil || !ok || !r.IsInt() {
+					return ""
+				}
+				return knownLoc(1)(new(big.Rat).SetInt64(r.Num().Int64()+int64(loc)), nil)
+			}
 			add("POSITION(t IN s) = first occurrence", f("POSITION(%s IN %s)", T, S), []string{"s", "t"}, wantInt(int64(loc))).known = knownLoc(1)
 			if loc > 0 {
 				it := add("SUBSTRING(s, LOCATE(t,s), CHAR_LENGTH(t)) = t", f("SUBSTRING(%s, LOCATE(%s,%s), CHAR_LENGTH(%s))", S, T, S, T), []string{"s", "t"}, wantStr(tt))
 				it.known = func(v any, err error) string {
-					// derived from the byte position: signature = what SUBSTRING gives at that position
-					i := strings.Index(strings.ToLower(s), strings.ToLower(tt))
-					if err == nil && i >= 0 {
-						if got, ok := str(v); ok && got == refSubstring(s, i+1, runeLen(tt), true) {
-							return kfLocateBytesCI
-						}
+					// derived: what SUBSTRING gives at the position the engine's LOCATE returns
+					got, ok := str(v)
+					if err != nil || !ok {
+						return ""
+					}
+					foldByte, foldChar := foldPos(1)
+					switch {
+					case !isASCII(s) && foldByte != foldChar && got == refSubstring(s, int(foldByte), runeLen(tt), true):
+						return kfLocateBytes
+					case foldMatters && got == refSubstring(s, int(foldChar), runeLen(tt), true):
+						return kfLocateCase
 					}
 					return ""
 				}
@@ -186,10 +226,12 @@ func TestC34(t *testing.T) {
 				it.knownNull = func(nullArg string, v any) string {
 					// signature: only the position is NULL and the value is what LOCATE(t,s) returns
 					// in this engine (a NULL position is read as 1)
-					if nullArg == "p" && knownLoc(1)(v, nil) != "" {
-						return kfLocateNullPos
+					r, ok := num(v)
+					if nullArg != "p" || !ok || !r.IsInt() {
+						return ""
 					}
-					if r, ok := num(v); nullArg == "p" && ok && r.IsInt() && r.Num().Int64() == int64(loc) {
+					foldByte, foldChar := foldPos(1)
+					if got := r.Num().Int64(); got == int64(loc) || got == foldByte || got == foldChar {
 						return kfLocateNullPos
 					}
 					return ""
